@@ -96,7 +96,7 @@ Inductive instr (A : Type) :=
 | ISetVar (c : nat) (i n order : nat)           (* SetVariable (order <= 2) *)
 | IMin (c : nat) (a b : opd A) | IMax (c : nat) (a b : opd A)
 | IAbs (c : nat) (a : opd A)
-| IABSc (c : nat) (a : opd A)                   (* concrete ABS: tests the RECEIVER's sign *)
+| IABSc (c : nat) (a : opd A)                   (* concrete ABS (same body as Abs since HEAD 2fc8894) *)
 | ILogAdd (c : nat) (a b : opd A) (t : nat)
 | ILogSub (c : nat) (a b : opd A) (t : nat)
 | ILog1pExp (c : nat) (a : opd A)
@@ -357,13 +357,15 @@ Definition do_setf (c : nat) (v : A) (s : St) : res St :=
 Definition square_ge (n : nat) (h : list (list A)) : bool :=
   (n <=? length h) && forallb (fun row => n <=? length row) (firstn n h).
 
-(* func (a *Real64) Set(b ConstScalar) — and SET.  Order is assigned BEFORE
-   Alloc, so Alloc reallocates only when N differs; with equal N and a higher
-   order in b the copy loops run into the old (shorter / nil) slices: panic. *)
+(* func (a *Real64) Set(b ConstScalar) — and SET (HEAD d9fca78):
+     a.Value = b.GetFloat64(); a.Alloc(b.GetN(), b.GetOrder()); a.Order = b.GetOrder(); copy loops.
+   Alloc reallocates (zeroed) whenever N or Order differ and leaves Order = b's order, so the
+   assignment after it changes nothing.  The length checks before the copy loops are Go's slice
+   bounds; they never fire for a receiver satisfying the storage invariant. *)
 Definition set_reg (c : nat) (b : opd A) (s : St) : res St :=
   let rb := rd s b in
   let r0 := s c in
-  let r1 := mkReg (rk r0) (rndk (rk r0) (rval rb)) (rorder rb) (rn r0) (rderiv r0) (rhess r0) in
+  let r1 := mkReg (rk r0) (rndk (rk r0) (rval rb)) (rorder r0) (rn r0) (rderiv r0) (rhess r0) in
   let r2 := alloc r1 (rn rb) (rorder rb) in
   let n := rn rb in
   if 1 <=? rorder r2 then
@@ -405,9 +407,8 @@ Definition do_abs (c : nat) (a : opd A) (s : St) : res St :=
   if Z.eqb sg (-1) then do_mon ONeg c a s
   else if Z.eqb sg 0 then do_reset c s
   else set_reg c a s.
-(* scalar_real64_math_concrete.go: func (c *Real64) ABS(a) { if c.Sign() == -1 {c.NEG(a)} else {c.SET(a)} } *)
-Definition do_ABS_concrete (c : nat) (a : opd A) (s : St) : res St :=
-  if Z.eqb (sign_of (rval (s c))) (-1) then do_mon ONeg c a s else set_reg c a s.
+(* scalar_real64_math_concrete.go (HEAD 2fc8894): ABS switches on a.Sign() exactly like Abs (NEG / Reset / SET) *)
+Definition do_ABS_concrete (c : nat) (a : opd A) (s : St) : res St := do_abs c a s.
 
 Definition is_inf (x : A) : bool := fisinf F x 0.
 
@@ -425,7 +426,15 @@ Definition do_log1pexp (c : nat) (a : opd A) (s : St) : res St :=
   let v := rval (rd s a) in
   if fleb F v (lit (-37)) then do_mon OExp c a s
   else if fleb F v (lit 18) then seqm [do_mon OExp c a; do_mon OLog1p c (Rg c)] s
-  else if fleb F v (fofQ F (333 # 10)) then seqm [do_mon ONeg c a; do_mon OExp c (Rg c); do_dy OAdd c (Rg c) a] s
+  else if fleb F v (fofQ F (333 # 10)) then
+    (* HEAD 7035970: t := NewScalar(c.Type(), 0.0); t.Neg(a); t.Exp(t); c.Add(a, t).  The fresh object is a
+       register id different from c and a, restored afterwards (it is garbage in Go). *)
+    let t := S (Nat.max c (match a with Rg i => i | Im _ => 0 end)) in
+    let saved := s t in
+    match seqm [do_mon ONeg t a; do_mon OExp t (Rg t); do_dy OAdd c a (Rg t)] (upd s t (null_reg (rk (s c)))) with
+    | Ok s' => Ok (upd s' t saved)
+    | Panic e => Panic e
+    end
   else set_reg c a s.
 Definition do_sigmoid (c : nat) (a : opd A) (t : nat) (s : St) : res St :=
   if fleb F zero (rval (rd s a)) then
